@@ -20,7 +20,7 @@ use vupd::{Msg, Rr, Snap};
 use crate::{Finding, Worker};
 
 pub struct Keyer {
-    memo: RwLock<HashMap<String, String>>,
+    memo: RwLock<HashMap<(u64, u64), String>>,
 }
 
 fn origin() -> Labels {
@@ -104,10 +104,11 @@ impl Keyer {
 
     pub fn key(&self, w: &Worker, f: &Finding, pre: &Snap, msg: &Msg) -> String {
         if f.clause == "panic" {
-            // keyed by what panicked (source location) plus the minimal witness
+            // keyed by what panicked (message + source file); no witness needed
+            return format!("panic:{}", f.detail);
         }
         let sub = relevant(pre, msg);
-        let k0 = format!("{}|{}|{}|{:?}", f.clause, f.detail, msg.text(), sub.text());
+        let k0 = (vupd::digest(&(&f.clause, &f.detail, msg, &sub)), vupd::digest(&(1u8, &sub, msg, &f.detail, &f.clause)));
         if let Some(k) = self.memo.read().unwrap().get(&k0) {
             return k.clone();
         }
@@ -122,7 +123,7 @@ impl Keyer {
         if pre != *zone {
             return false;
         }
-        let out = crate::step(w, &w.scratch, &pre, msg, 9);
+        let out = crate::step(w, &w.scratch, &crate::Pre::new(pre), msg, 9);
         out.findings.iter().any(|g| g.clause == f.clause && g.detail == f.detail)
     }
 
@@ -137,25 +138,46 @@ impl Keyer {
                 return format!("{}[{}]:unminimised:{}", f.clause, f.detail, render(&Snap::default(), &msg, pre.serial().unwrap_or(0)));
             }
         }
-        // atoms
-        let mut i = 0;
-        while i < msg.prereqs.len() {
-            let mut m = msg.clone();
-            m.prereqs.remove(i);
-            if self.fails(w, f, &zone, &m) {
-                msg = m;
-            } else {
-                i += 1;
+        // atoms: whole sections first (a set-valued prerequisite cannot be removed RR by RR), then
+        // single atoms, repeated until nothing more can go
+        loop {
+            let before = msg.clone();
+            if !msg.prereqs.is_empty() {
+                let mut m = msg.clone();
+                m.prereqs.clear();
+                if self.fails(w, f, &zone, &m) {
+                    msg = m;
+                }
             }
-        }
-        let mut i = 0;
-        while i < msg.updates.len() {
-            let mut m = msg.clone();
-            m.updates.remove(i);
-            if self.fails(w, f, &zone, &m) {
-                msg = m;
-            } else {
-                i += 1;
+            if !msg.updates.is_empty() {
+                let mut m = msg.clone();
+                m.updates.clear();
+                if self.fails(w, f, &zone, &m) {
+                    msg = m;
+                }
+            }
+            let mut i = 0;
+            while i < msg.prereqs.len() {
+                let mut m = msg.clone();
+                m.prereqs.remove(i);
+                if self.fails(w, f, &zone, &m) {
+                    msg = m;
+                } else {
+                    i += 1;
+                }
+            }
+            let mut i = 0;
+            while i < msg.updates.len() {
+                let mut m = msg.clone();
+                m.updates.remove(i);
+                if self.fails(w, f, &zone, &m) {
+                    msg = m;
+                } else {
+                    i += 1;
+                }
+            }
+            if msg == before {
+                break;
             }
         }
         // zone elements (never the apex SOA, never the last apex NS)
@@ -186,7 +208,43 @@ impl Keyer {
                 i += 1;
             }
         }
-        format!("{}[{}]:{}", f.clause, f.detail, render(&zone, &msg, zone.serial().unwrap_or(0)))
+        // TTLs of the remaining zone elements: the universe's default unless another value matters
+        for i in 0..zone.rrs.len() {
+            if zone.rrs[i].ttl != 60 {
+                let mut z = zone.clone();
+                z.rrs[i].ttl = 60;
+                z.rrs.sort();
+                if self.fails(w, f, &z, &msg) {
+                    zone = z;
+                }
+            }
+        }
+        let detail = if f.detail.is_empty() { String::new() } else { format!("[{}]", f.detail) };
+        if f.clause == "serial" && f.detail == "exp=stay obs=advanced" && msg.updates.len() >= 2 && cancels_out(&zone, &msg) {
+            // one root cause by construction: the message as a whole leaves the content as it was,
+            // but a proper prefix of its update section changes it
+            return format!("{}{}:intermediate-changes-cancel-out", f.clause, detail);
+        }
+        format!("{}{}:{}", f.clause, detail, render(&zone, &msg, zone.serial().unwrap_or(0)))
+    }
+}
+
+/// The whole update section leaves the content unchanged although a proper prefix changes it
+/// (judged with the reference model only).
+fn cancels_out(zone: &Snap, msg: &Msg) -> bool {
+    let z = zone.zone();
+    let before = z.content();
+    let run = |n: usize| -> Option<std::collections::BTreeSet<Rr>> {
+        let u = ru::Update { zname: origin(), ztype: ru::T_SOA, zclass: ru::CLASS_IN, prereqs: vec![], updates: msg.updates[..n].to_vec() };
+        let v = ru::process(&z, &u);
+        if !v.accepted() || v.zones.len() != 1 {
+            return None;
+        }
+        Some(v.zones[0].zone.content())
+    };
+    match run(msg.updates.len()) {
+        Some(c) if c == before => (1..msg.updates.len()).any(|n| run(n).map(|c| c != before).unwrap_or(false)),
+        _ => false,
     }
 }
 
@@ -212,6 +270,10 @@ fn intern<T: PartialEq + Clone>(v: &mut Vec<T>, x: &T) -> usize {
     }
 }
 
+fn is_wild(n: &Labels) -> bool {
+    n.first().map(|l| l.as_slice() == b"*").unwrap_or(false)
+}
+
 impl Renamer {
     fn name(&mut self, n: &Labels) -> String {
         let o = origin();
@@ -221,7 +283,7 @@ impl Renamer {
         if !in_zone(n) {
             return format!("o{}", intern(&mut self.outs, n));
         }
-        if n.first().map(|l| l.as_slice() == b"*").unwrap_or(false) {
+        if is_wild(n) {
             let parent: Labels = n[1..].to_vec();
             return format!("*.{}", self.name(&parent));
         }
@@ -229,10 +291,8 @@ impl Renamer {
         // nearest strict ancestor among the witness names
         let mut anc: Option<usize> = None;
         for (j, y) in self.names.iter().enumerate() {
-            if j != id && y.len() < n.len() && is_ancestor_or_self(y, n) {
-                if anc.map(|a| self.names[a].len() < y.len()).unwrap_or(true) {
-                    anc = Some(j);
-                }
+            if j != id && y.len() < n.len() && is_ancestor_or_self(y, n) && anc.map(|a| self.names[a].len() < y.len()).unwrap_or(true) {
+                anc = Some(j);
             }
         }
         match anc {
@@ -240,14 +300,19 @@ impl Renamer {
             None => format!("n{id}"),
         }
     }
-    fn ttl(&mut self, t: u32) -> String {
+    /// TTL of a zone element or of an "add" atom: renamed in order of first appearance.
+    fn ttl_data(&mut self, t: u32) -> String {
+        format!("T{}", intern(&mut self.ttls, &t))
+    }
+    /// TTL of a prerequisite / delete atom, where RFC 2136 demands zero.
+    fn ttl_meta(&mut self, t: u32) -> String {
         if t == 0 {
             "0".into()
         } else {
-            format!("T{}", intern(&mut self.ttls, &t))
+            "nonzero".into()
         }
     }
-    fn rdata(&mut self, r: &Rr, cur: u32, is_atom: bool) -> String {
+    fn rdata(&mut self, r: &Rr, cur: u32) -> String {
         if r.rdata.is_empty() {
             return "-".into();
         }
@@ -277,48 +342,65 @@ impl Renamer {
                     ru::SerialOrd::Less => ser > cur,
                     _ => false,
                 };
-                let _ = is_atom;
                 format!("serial={rel}{} m{}", if wraps { "(wraps)" } else { "" }, intern(&mut self.mins, &min))
             }
             _ => "rd".into(),
         }
     }
-    fn rr(&mut self, r: &Rr, cur: u32, is_atom: bool) -> String {
-        let n = self.name(&r.name);
-        let t = self.ttl(r.ttl);
-        let rd = self.rdata(r, cur, is_atom);
-        format!("{n} {t} {} {} {rd}", vupd::class_name(r.class), vupd::type_name(r.rtype))
-    }
 }
 
-/// Canonical text of a minimal witness. The apex SOA is implied; a single apex NS is implied
-/// unless the message touches the apex NS RRset.
+/// Canonical text of a minimal witness. Implied and not printed: the apex SOA (unless an atom
+/// addresses the apex SOA) and a single apex NS (unless an atom addresses the apex NS RRset or
+/// all of the apex). A type-only atom whose type the witness zone does not hold at that name is
+/// printed with the type `~` ("some type the name does not have").
 pub fn render(zone: &Snap, msg: &Msg, cur: u32) -> String {
     let o = origin();
     let mut rn = Renamer::default();
-    // intern the message's names first (so that isomorphic witnesses print alike)
+    // intern the names: the message's first, then the zone's (sorted)
     for r in msg.prereqs.iter().chain(msg.updates.iter()) {
-        if in_zone(&r.name) && r.name != o && !r.name.first().map(|l| l.as_slice() == b"*").unwrap_or(false) {
+        if in_zone(&r.name) && r.name != o && !is_wild(&r.name) {
             intern(&mut rn.names, &r.name);
         }
     }
-    let touches_apex_ns = msg.prereqs.iter().chain(msg.updates.iter()).any(|r| r.name == o && (r.rtype == ru::T_NS || r.rtype == ru::T_ANY));
+    let mut znames: Vec<&Labels> = zone.rrs.iter().map(|r| &r.name).chain(zone.empty_keys.iter().map(|(n, _)| n)).collect();
+    znames.sort();
+    for n in znames {
+        if in_zone(n) && *n != o && !is_wild(n) {
+            intern(&mut rn.names, n);
+        }
+    }
+    let atoms = || msg.prereqs.iter().chain(msg.updates.iter());
+    let touches_apex_ns = atoms().any(|r| r.name == o && (r.rtype == ru::T_NS || r.rtype == ru::T_ANY));
     let apex_ns = zone.rrs.iter().filter(|r| r.name == o && r.rtype == ru::T_NS).count();
-    let touches_soa = msg.prereqs.iter().chain(msg.updates.iter()).any(|r| r.rtype == ru::T_SOA);
-    let ps: Vec<String> = msg.prereqs.iter().map(|r| rn.rr(r, cur, true)).collect();
-    let us: Vec<String> = msg.updates.iter().map(|r| rn.rr(r, cur, true)).collect();
+    let touches_apex_soa = atoms().any(|r| r.name == o && r.rtype == ru::T_SOA);
+    let holds = |name: &Labels, t: u16| zone.rrs.iter().any(|z| z.name == *name && z.rtype == t) || zone.empty_keys.iter().any(|(n, et)| n == name && *et == t);
+    let atom = |rn: &mut Renamer, r: &Rr, is_prereq: bool| -> String {
+        let n = rn.name(&r.name);
+        let data_atom = !is_prereq && r.class == ru::CLASS_IN;
+        let t = if data_atom { rn.ttl_data(r.ttl) } else { rn.ttl_meta(r.ttl) };
+        let plain_type = matches!(r.rtype, ru::T_A | ru::T_TXT | ru::T_NS | ru::T_CNAME | ru::T_SOA);
+        let ty = if is_prereq && r.rdata.is_empty() && plain_type && !holds(&r.name, r.rtype) { "~".to_string() } else { vupd::type_name(r.rtype) };
+        let rd = rn.rdata(r, cur);
+        format!("{n} {t} {} {ty} {rd}", vupd::class_name(r.class))
+    };
+    let ps: Vec<String> = msg.prereqs.iter().map(|r| atom(&mut rn, r, true)).collect();
+    let us: Vec<String> = msg.updates.iter().map(|r| atom(&mut rn, r, false)).collect();
     let mut zs: Vec<String> = vec![];
     for r in &zone.rrs {
-        if r.name == o && r.rtype == ru::T_SOA && !touches_soa {
+        if r.name == o && r.rtype == ru::T_SOA && !touches_apex_soa {
             continue;
         }
         if r.name == o && r.rtype == ru::T_NS && apex_ns == 1 && !touches_apex_ns {
             continue;
         }
-        zs.push(rn.rr(r, cur, false));
+        let n = rn.name(&r.name);
+        let t = rn.ttl_data(r.ttl);
+        let rd = rn.rdata(r, cur);
+        zs.push(format!("{n} {t} {} {} {rd}", vupd::class_name(r.class), vupd::type_name(r.rtype)));
     }
     for (n, t) in &zone.empty_keys {
         zs.push(format!("{} <empty {} key>", rn.name(n), vupd::type_name(*t)));
     }
+    zs.sort();
     format!("zone{{{}}} msg{{P[{}] U[{}]}}", zs.join("; "), ps.join("; "), us.join("; "))
 }
